@@ -1,61 +1,10 @@
-(* Shared observable type for the correspondence checks: an event is a tag,
-   a list of integers and a list of byte strings.  Everything the harness
-   observes on the implementation is projected onto lists of such events and
-   compared with what the executable model computes, by boolean equality
-   evaluated with vm_compute. *)
+(* Observable types (re-exported from ObsCore, which the models and theorems use) plus the
+   compact transport encoding of cases, which uses primitive 63-bit integers and is
+   imported by the correspondence files only. *)
 From Coq Require Import ZArith List Bool Uint63.
+From Tally Require Export Base.ObsCore.
 Import ListNotations.
 Open Scope Z_scope.
-
-Definition bytes := list Z.
-
-Record ev := Ev { ek : Z; ei : list Z; es : list bytes }.
-
-Fixpoint list_eqb {A} (eqb : A -> A -> bool) (a b : list A) : bool :=
-  match a, b with
-  | [], [] => true
-  | x :: a', y :: b' => eqb x y && list_eqb eqb a' b'
-  | _, _ => false
-  end.
-
-Definition zs_eqb := list_eqb Z.eqb.
-Definition zss_eqb := list_eqb zs_eqb.
-Definition ev_eqb (a b : ev) : bool :=
-  Z.eqb (ek a) (ek b) && zs_eqb (ei a) (ei b) && zss_eqb (es a) (es b).
-Definition evs_eqb := list_eqb ev_eqb.
-Definition evss_eqb := list_eqb evs_eqb.
-
-Lemma list_eqb_spec {A} (eqb : A -> A -> bool) :
-  (forall x y, eqb x y = true <-> x = y) ->
-  forall a b, list_eqb eqb a b = true <-> a = b.
-Proof.
-  intros He a; induction a as [|x a IH]; intros [|y b]; cbn; split; intro Hh;
-    try reflexivity; try discriminate.
-  - apply andb_true_iff in Hh as [H1 H2]. apply He in H1. apply IH in H2. congruence.
-  - inversion Hh; subst. apply andb_true_iff; split; [apply He | apply IH]; reflexivity.
-Qed.
-
-Lemma zs_eqb_spec a b : zs_eqb a b = true <-> a = b.
-Proof. apply list_eqb_spec. intros; apply Z.eqb_eq. Qed.
-Lemma zss_eqb_spec a b : zss_eqb a b = true <-> a = b.
-Proof. apply list_eqb_spec. apply zs_eqb_spec. Qed.
-Lemma ev_eqb_spec a b : ev_eqb a b = true <-> a = b.
-Proof.
-  destruct a as [k i s], b as [k' i' s']; unfold ev_eqb; cbn; split; intro Hh.
-  - apply andb_true_iff in Hh as [Hh H3]. apply andb_true_iff in Hh as [H1 H2].
-    apply Z.eqb_eq in H1. apply zs_eqb_spec in H2. apply zss_eqb_spec in H3. congruence.
-  - inversion Hh; subst. rewrite Z.eqb_refl.
-    rewrite (proj2 (zs_eqb_spec i' i') eq_refl), (proj2 (zss_eqb_spec s' s') eq_refl). reflexivity.
-Qed.
-Lemma evs_eqb_spec a b : evs_eqb a b = true <-> a = b.
-Proof. apply list_eqb_spec. apply ev_eqb_spec. Qed.
-Lemma evss_eqb_spec a b : evss_eqb a b = true <-> a = b.
-Proof. apply list_eqb_spec. apply evs_eqb_spec. Qed.
-
-(* mismatch collection: [check c] returns the code of the first observable
-   on which model and implementation differ, 0 when they agree *)
-Definition collect {C} (cid : C -> Z) (check : C -> Z) (cs : list C) : list (Z * Z) :=
-  flat_map (fun c => let r := check c in if Z.eqb r 0 then [] else [(cid c, r)]) cs.
 
 (* ------------------------------------------------------------------ *)
 (* Compact transport encoding of cases.  Elaborating a cases file costs
